@@ -476,4 +476,28 @@ def gen_table():
     return "\n".join(o)
 
 
-GENERATORS = {"LifecycleEnums": gen_enums, "LifecycleTable": gen_table}
+def gen_reach():
+    """closure of the initial manager states under the enabled calls, computed by the Lean model itself
+    (Driver/C08Reach.lean) from the regenerated table; cached on a hash of everything it depends on"""
+    import hashlib
+    import subprocess
+    import common
+    enums, table = gen_enums(), gen_table()
+    common.write_if_changed(T.GEN / "LifecycleEnums.lean", enums)
+    common.write_if_changed(T.GEN / "LifecycleTable.lean", table)
+    deps = [enums, table] + [(common.LEAN / rel).read_text() for rel in
+                             ("GeckoModel/Model/LifecycleVocab.lean", "GeckoModel/Model/Lifecycle.lean", "Driver/C08Reach.lean")]
+    tag = hashlib.sha1("\x00".join(deps).encode()).hexdigest()[:16]
+    out = T.GEN / "LifecycleReach.lean"
+    if out.exists() and f"-- source-hash: {tag}\n" in out.read_text()[:400]:
+        return out.read_text()
+    ok, log, _ = common.lake_build(["GeckoModel.Generated.LifecycleTable", "GeckoModel.Model.Lifecycle"])
+    if not ok:
+        raise Untranslatable("the lifecycle model does not build against the regenerated table: " + log[-300:])
+    p = subprocess.run(["lake", "env", "lean", "--run", "Driver/C08Reach.lean", tag], cwd=common.LEAN, capture_output=True, text=True, timeout=900)
+    if p.returncode != 0 or "def reachSucc" not in p.stdout:
+        raise Untranslatable("reach-set generator failed: " + (p.stderr or p.stdout)[-300:])
+    return p.stdout
+
+
+GENERATORS = {"LifecycleEnums": gen_enums, "LifecycleTable": gen_table, "LifecycleReach": gen_reach}
